@@ -367,6 +367,22 @@ class Facts:
                     changed = True
         return [self.fns[x] for x in sorted(fam, key=lambda i: (i != f["id"], self.fns[i]["path"]))]
 
+    def root_of(self, f):
+        """The function whose piece f is: a non-public, non-trait function with exactly one calling function is named after
+        that caller (repeatedly), so that a verdict keyed by `XmlAttribute::set_values` keeps its key when part of the body
+        moves into a private `adopt_values`."""
+        self.family(f)        # builds self._callers
+        cur, n = f, 0
+        while n < 4 and str(cur.get("vis", "")).startswith("Restricted") and " as " not in cur["path"] and cur["kind"] in ("Fn", "AssocFn"):
+            cs = {c for c in self._callers.get(cur["id"], ()) if c != cur["id"] and self.fns[c].get("parent") != cur["path"]}
+            # closures of one function count as that function
+            cs = {self.by_path[self.fns[c]["parent"]]["id"] if self.fns[c].get("parent") in self.by_path and self.fns[c]["kind"] == "Closure" else c for c in cs}
+            if len(cs) != 1:
+                break
+            cur = self.fns[next(iter(cs))]
+            n += 1
+        return cur
+
     def reachable(self, roots, follow_dyn=True, stop=None):
         """Set of workspace fn ids reachable from roots (ids) along all edge kinds.
 
